@@ -46,10 +46,28 @@ Streams
   termsx  : batches of terms histories here and in a fresh interpreter that performs the edits but none
             of the earlier validations and looks at the histories and their documents in the opposite
             order (other PYTHONHASHSEED, every third batch another locale): same final issues.
+  (added after seeded round 5)  a second batch of terms / termsx / wide cases whose terminologies are FILES
+            the library loads itself and that end at every stage of loading: unreachable, not UTF-8, not
+            XML, wrong root, no / old format version (loads as nothing), a refused Property or unknown
+            attribute (dropped by the lenient reader), links that resolve (absolute, relative, to a linking
+            Section, to itself) or dangle (the load fails after parsing), includes of an earlier file of the
+            case (with / without path, dangling path, unreachable file, a file that is itself broken or
+            unloadable); repositories handed over as constructor arguments (nothing is fetched before the
+            first validation) as well as through the setters (loader thread); between two validations the
+            loader is entered through its other doors (terminology.load, get_terminology_equivalent,
+            Document.finalize, a Section that includes a terminology) and loaded terminologies are validated
+            themselves.  The harness's copy of a terminology "as loaded" resolves links and includes on its
+            own objects (term_document(resolve=True)); a terminology that cannot be loaded holds no type.
+  loader  : (round 5, correspondence with Model/TermLoad.lean) files x sequences of terminology.load /
+            deferred_load / the two on-demand rules run by a reset Validation: outcome of every load (Document,
+            None, raises), the Documents the table of loaded terminologies holds after every step, number of
+            warnings; oracle: the same file loads the same way and the same rule reports the same, whatever
+            entered the loader in between.
 """
 import io
 import json
 import os
+import re
 import shutil
 import subprocess
 import sys
@@ -272,26 +290,157 @@ _TERMS = {}             # url -> the harness's copy of the terminology Document 
 _TERM_FILES = []        # base names of terminology files of this case (the loader caches copies)
 
 
-def term_document(secs):
+# (added after seeded round 5)  What a terminology FILE can be, beyond a well-formed document: the loader
+# fetches it, decodes it, parses it, and then resolves the links and includes of what it has parsed; each
+# of these stages can fail, and a later validation must find whatever the failed load has left behind.
+#   broken : the file cannot be decoded / parsed / has no or an old format version -> loads as nothing
+#   soft   : the file holds something the lenient reader drops (a refused Property, an unknown
+#            attribute): the rest is the terminology
+#   Sections with a "link" (a path inside the file: resolvable, dangling, to itself, to another linking
+#   Section) or an "include" ({"key": an EARLIER terminology of the case or None = unreachable file,
+#   "path": a path in it, none, a dangling one}).
+# The harness's own copy (_TERMS) is the document "as loaded": links resolved by the same Section.link
+# setter on the harness's own objects, includes merged from the harness's copy of the other terminology -
+# no table, no cache, no loader of odml.terminology involved.
+UNLOADABLE = "unloadable"    # fetched and parsed, but its links cannot be resolved: nothing is loaded
+UNKNOWN = "unknown"          # the harness cannot tell what the loaded document looks like
+BROKEN_FILES = ["syntax", "wrongroot", "noversion", "oldversion", "empty", "binary", "notxml", "latin1"]
+SOFT_FILES = ["badprop", "unknown_attr"]
+
+
+class _Unknown(Exception):
+    pass
+
+
+def include_url(inc, urls, token):
+    if inc.get("key") is None:
+        url = "file:///nonexistent/c19inc_%s.xml" % token
+        _TERMS.setdefault(url, None)
+        return url
+    return urls.get(inc["key"], "file:///nonexistent/c19inc_%s_%s.xml" % (token, inc["key"]))
+
+
+def term_document(secs, urls=None, token=0, resolve=False):
+    """The terminology document of a spec.  Without links / includes in the spec: the plain document
+    (all earlier rounds).  resolve=False: linking / including Sections as they are written into the
+    file (unresolved, public constructor arguments).  resolve=True: the harness's copy of what a
+    loader has to hand over - raises ValueError where the links cannot be resolved, _Unknown where the
+    harness cannot tell."""
     import odml
     doc = odml.Document()
+    own = set()
 
     def mk(spec, parent):
-        sec = odml.Section(name=spec["name"], type=spec["type"], parent=parent)
+        kw = {}
+        if spec.get("link") is not None:
+            kw["link"] = spec["link"]
+        elif spec.get("include") is not None and not resolve:
+            inc = spec["include"]
+            kw["include"] = include_url(inc, urls or {}, token) + ("#" + inc["path"] if inc.get("path") else "")
+        sec = odml.Section(name=spec["name"], type=spec["type"], parent=parent, **kw)
+        if spec.get("include") is not None and resolve:
+            sec._c19_inc = spec["include"]       # survives Section.clone (a merge clones its target)
+            own.add(id(sec))
         for name in spec.get("props", []):
             odml.Property(name=name, parent=sec)
         for sub in spec.get("subs", []):
             mk(sub, sec)
     for spec in secs:
         mk(spec, doc)
+    if resolve:
+        # the order of Document.finalize: every Section, recursively, first its link then its include
+        for sec in doc.itersections(recursive=True):
+            if sec.link is not None:
+                sec.link = sec.link
+            inc = getattr(sec, "_c19_inc", None)
+            if inc is not None:
+                if id(sec) not in own or sec.link is not None:
+                    raise _Unknown()         # an including Section that has been copied by a merge
+                own.discard(id(sec))
+                resolve_include(sec, inc, urls or {}, token)
     return doc
+
+
+def resolve_include(sec, inc, urls, token):
+    """What the include attribute means, on the harness's own objects: the Section at the path (the
+    first Section without a path) of the other, loaded, terminology is merged into the including one;
+    no such file / Section: nothing happens."""
+    from odml.section import BaseSection
+    url = include_url(inc, urls, token)
+    if url not in _TERMS or _TERMS[url] is UNKNOWN:
+        raise _Unknown()
+    other = _TERMS[url]
+    if other is UNLOADABLE:
+        raise ValueError("the included terminology cannot be loaded")
+    if other is None:
+        return
+    target = None
+    if inc.get("path"):
+        try:
+            target = other.get_section_by_path(inc["path"])
+        except ValueError:
+            target = None
+        if not isinstance(target, BaseSection):
+            target = None
+    elif len(other.sections):
+        target = other.sections[0]
+    if target is not None:
+        sec.merge(target, strict=False)
+
+
+def spec_has_refs(secs):
+    return any(s.get("link") is not None or s.get("include") is not None or spec_has_refs(s.get("subs", []))
+               for s in secs)
+
+
+def term_file_data(t, urls, token):
+    """The content of the terminology file of spec t (text, or bytes for what is no text)."""
+    from odml.tools.odmlparser import ODMLWriter
+    text = ODMLWriter("XML").to_string(term_document(t["secs"], urls, token))
+    kind = t.get("broken") or t.get("soft")
+    if kind == "syntax":
+        return text[:max(20, len(text) * 2 // 3)]
+    if kind == "wrongroot":
+        return text.replace("<odML", "<odMX", 1).replace("</odML>", "</odMX>")
+    if kind == "noversion":
+        return re.sub(r'(<odML) version="[^"]*"', r"\1", text, count=1)
+    if kind == "oldversion":
+        return re.sub(r'(<odML) version="[^"]*"', r'\1 version="1"', text, count=1)
+    if kind == "empty":
+        return ""
+    if kind == "binary":
+        return b"\xff\xfe\x00\x01 not a text \x80\x81"
+    if kind == "notxml":
+        return "Document:\n  sections: []\nodml-version: '1.1'\n"
+    if kind == "latin1":
+        return text.replace("<section>", "<section><definition>\u00dcber</definition>", 1).encode("latin-1")
+    if kind == "badprop":
+        return text.replace("<section>", "<section><property><name>c19bad</name><value>[abc]</value>"
+                            "<type>int</type></property>", 1)
+    if kind == "unknown_attr":
+        return text.replace("<section>", "<section><colour>red</colour>", 1)
+    return text
+
+
+def harness_copy(t, urls, token):
+    if t.get("broken"):
+        return None
+    if not spec_has_refs(t["secs"]):
+        return term_document(t["secs"])
+    try:
+        return term_document(t["secs"], urls, token, resolve=True)
+    except _Unknown:
+        return UNKNOWN
+    except ValueError:
+        return UNLOADABLE
+    except Exception:
+        return UNKNOWN
 
 
 def register_terms(terms, token, tmp):
     """-> {key: url}.  Must run before a document that names one of them is built: the repository
     setter starts a loader thread for every URL that is not in the table yet."""
     import odml.terminology
-    from odml.tools.odmlparser import ODMLWriter
     urls = {}
     for t in terms or []:
         kind = t.get("kind", "mem")
@@ -303,10 +452,15 @@ def register_terms(terms, token, tmp):
         elif kind == "file":
             name = "c19term_%s_%s_%d.xml" % (token, t["key"], os.getpid())
             path = os.path.join(tmp(), name)
-            with io.open(path, "w", encoding="utf-8") as fh:
-                fh.write(ODMLWriter("XML").to_string(term_document(t["secs"])))
+            data = term_file_data(t, urls, token)
+            if isinstance(data, bytes):
+                with open(path, "wb") as fh:
+                    fh.write(data)
+            else:
+                with io.open(path, "w", encoding="utf-8") as fh:
+                    fh.write(data)
             url = "file://" + path
-            _TERMS[url] = term_document(t["secs"])
+            _TERMS[url] = harness_copy(t, urls, token)
             _TERM_FILES.append(name)
         else:
             url = "c19term://%s/%s.xml" % (token, t["key"])
@@ -357,7 +511,7 @@ def effective_repository(sec):
 
 
 def term_lookup(sec):
-    """-> (state, terminology Section): norepo | unreachable | absent | found, or unknown when the
+    """-> (state, terminology Section): norepo | unreachable | unloadable | absent | found, or unknown when the
     harness cannot tell (a URL that is not the case's, a type that is not a non-empty string: what
     'the Section type is present in the terminology' means for those the property does not say)."""
     repo = effective_repository(sec)
@@ -368,6 +522,10 @@ def term_lookup(sec):
     term = _TERMS[repo]
     if term is None:
         return "unreachable", None
+    if term is UNKNOWN:
+        return "unknown", None
+    if term is UNLOADABLE:
+        return "unloadable", None
     typ = sec.type
     if not isinstance(typ, str) or not typ:
         return "unknown", None
@@ -389,12 +547,17 @@ def restated_extra(name, obj):
         state, _t = term_lookup(obj)
         if state == "unknown":
             return None
+        # a terminology that cannot be loaded (round 5: fetched, but its links cannot be resolved) holds
+        # no type for the rule, like one that cannot be fetched
         return 0 if state == "found" else 1
     if name == "property_terminology_check":
         if obj.parent is None:
             return 0
         state, t = term_lookup(obj.parent)
-        if state == "unknown":
+        if state in ("unknown", "unloadable"):
+            # unloadable: the property does not say whether this rule reports nothing or fails (the
+            # unchanged library lets the loader's exception through); the weaker reading is taken: the
+            # rule's own answer, which then has to be the same on every run
             return None
         if state != "found":
             return 0
@@ -720,6 +883,8 @@ def gen_wide_history(rng, table=None, px=0.07):
 # ----------------------------------------------------------------------------- round 3: terminologies
 # wide histories over documents that name repositories: the wide macros plus repository edits
 LIB_WIDE3 = LIB_WIDE + [("setRepo", 10), ("otherDocument", 8)]
+# round 5: plus refused Validation constructions and the other doors into the terminology loader
+LIB_WIDE5 = LIB_WIDE3 + [("refusedValidation", 4), ("loaderDoor", 8)]
 T_TYPES = ["stimulus", "Stimulus", "recording", "subject", "t", "t/sub", "n.s.", "\u00dcber", "u"]
 T_PNAMES = ["Duration", "Contrast", "Luminance", "duration", "a", "b", "zp", "Author"]
 REPO_EDITS = [None, "", " ", "file:///nonexistent/c19_other_repo.xml"]
@@ -739,7 +904,73 @@ def gen_term(rng, key, types, pnames, kinds):
     return term
 
 
-def add_terms(rng, doc):
+def spec_paths(secs, prefix="", safe=True):
+    """Paths of the Sections of a terminology spec a link / include may point to.  safe: only Sections
+    whose subtree holds no linking / including Section, and such Sections themselves (they have no
+    sub-Sections).  A link into a subtree that holds a link back sends Document.finalize into an
+    unbounded recursion of merges - on any document, that is the business of the link properties."""
+    out = []
+    for sec in secs:
+        path = prefix + "/" + sec["name"]
+        if not safe or sec.get("link") is not None or sec.get("include") is not None \
+                or not spec_has_refs([sec]):
+            out.append(path)
+        out.extend(spec_paths(sec.get("subs", []), path, safe))
+    return out
+
+
+def gen_term_load(rng, key, earlier, types, pnames, dangling=0.16):
+    """(round 5) A terminology that mostly sits in a FILE the library has to load itself, and the file is
+    not always a well-formed, self-contained document: see BROKEN_FILES / SOFT_FILES and the linking /
+    including Sections described above term_document.  `earlier`: the specs an include may point to."""
+    term = gen_term(rng, key, types, pnames, ["file"] * 8 + ["mem", "missing"])
+    if term["kind"] != "file":
+        return term
+    r = rng.random()
+    if r < 0.2:
+        term["broken"] = rng.choice(BROKEN_FILES)
+    elif r < 0.3:
+        term["soft"] = rng.choice(SOFT_FILES)
+    count = rng.choice([0, 1, 1, 1, 2, 3])
+    # where the linking / including Sections go: top level, or below one of the plain top level Sections
+    # (which then is no target any more, see spec_paths)
+    plain = list(term["secs"])
+    hosts = [rng.choice(plain) if rng.random() < 0.3 and len(plain) > 1 else None for _ in range(count)]
+    for host in hosts:
+        if host is not None:
+            host["host"] = True
+    for n, host in enumerate(hosts):
+        ref = {"name": "L%d" % (n + 1), "type": rng.choice(types),
+               "props": rng.sample(pnames, rng.randrange(0, min(3, len(pnames)) + 1)), "subs": []}
+        paths = [p for p in spec_paths(term["secs"])
+                 if not any(p == "/" + h["name"] for h in plain if h.get("host"))] or ["/nope"]
+        r = rng.random()
+        if r < dangling:
+            ref["link"] = rng.choice(["/nope", "/no/such", rng.choice(paths) + "/nope", "/" + ref["name"], "nope"])
+        elif r < dangling + 0.06:
+            ref["link"] = "../" + rng.choice(paths).lstrip("/")    # relative spelling
+        elif r < 0.75:
+            ref["link"] = rng.choice(paths)                        # resolvable (also: to a linking Section)
+        else:
+            other = rng.choice(earlier + [None]) if earlier else None
+            if other is None:
+                ref["include"] = {"key": None, "path": rng.choice([None, "/T1"])}
+            else:
+                first = other["secs"][0]
+                nopath = [None, None] if not spec_has_refs([first]) or first.get("link") is not None \
+                    or first.get("include") is not None else []
+                ref["include"] = {"key": other["key"],
+                                  "path": rng.choice(spec_paths(other["secs"]) * 3 + nopath + ["/nope"])}
+        if host is None:
+            term["secs"].insert(rng.randrange(len(term["secs"]) + 1), ref)
+        else:
+            host.setdefault("subs", []).append(ref)
+    for sec in plain:
+        sec.pop("host", None)
+    return term
+
+
+def add_terms(rng, doc, load=False):
     """Gives a wide document repositories (on the Document, on Sections, inherited by the rest) that
     point to terminologies of its own, built from the types and Property names the document uses."""
     types, pnames = set(["t", "u", "T"]), set(["zp", "a", "b"])
@@ -757,7 +988,13 @@ def add_terms(rng, doc):
     types, pnames = sorted(types), sorted(pnames)
     keys = ["a", "b", "c"][:rng.choice([1, 2, 2, 3])]
     doc["token"] = rng.randrange(10 ** 9)
-    doc["terms"] = [gen_term(rng, k, types, pnames, ["mem"] * 6 + ["file", "missing"]) for k in keys]
+    if load:
+        doc["terms"] = []
+        for k in keys:
+            doc["terms"].append(gen_term_load(rng, k, [t for t in doc["terms"] if t["kind"] == "file"],
+                                              types, pnames))
+    else:
+        doc["terms"] = [gen_term(rng, k, types, pnames, ["mem"] * 6 + ["file", "missing"]) for k in keys]
     if rng.random() < 0.7:
         doc["repo"] = TERM_MARK + rng.choice(keys)
 
@@ -802,9 +1039,17 @@ def gen_term_doc(rng, keys):
             "secs": [sec(2) for _ in range(rng.choice([0, 1, 1, 1, 2, 2, 3]))]}
 
 
-def gen_terms_case(rng):
+def gen_terms_case(rng, load=False):
+    """load (round 5): the terminologies are files that may fail at every stage of loading, the
+    repositories reach the documents through constructor arguments as well as through the setters, and
+    the history also enters the terminology loader through its other doors between two validations."""
     keys = ["a", "b", "c", "d"][:rng.choice([2, 2, 3, 4])]
-    terms = [gen_term(rng, k, T_TYPES, T_PNAMES, ["mem"] * 7 + ["file", "missing"]) for k in keys]
+    if load:
+        terms = []
+        for k in keys:
+            terms.append(gen_term_load(rng, k, [t for t in terms if t["kind"] == "file"], T_TYPES[:6], T_PNAMES))
+    else:
+        terms = [gen_term(rng, k, T_TYPES, T_PNAMES, ["mem"] * 7 + ["file", "missing"]) for k in keys]
     docs = []
     for _ in range(rng.choice([2, 2, 3, 4])):
         if docs and rng.random() < 0.4:
@@ -814,6 +1059,11 @@ def gen_terms_case(rng):
             docs.append(twin)
         else:
             docs.append(gen_term_doc(rng, keys))
+        if load:
+            # how the repository reaches the object: constructor argument (what a reader does; nothing is
+            # fetched before the first validation) or setter (starts a loader thread)
+            docs[-1]["via"] = rng.choice(["ctor", "ctor", "setter"])
+            docs[-1]["sec_via"] = rng.choice(["ctor", "ctor", "setter"])
     both = {"section": [{"x": "section_repository_present"}], "property": [{"x": "property_terminology_check"}]}
 
     def rules():
@@ -847,6 +1097,14 @@ def gen_terms_case(rng):
         elif 0.45 <= r < 0.48:
             k = rng.choice(["section", "property"])
             acts.append({"t": "global", "k": k, "h": both[k][0]})
+        elif load and r > 0.8:
+            # the other doors into the terminology loader, and validations of a terminology itself
+            e = rng.choice(["loadterm", "loadterm", "termeq", "termeq", "finalize", "inclterm", "valterm"])
+            a = {"t": e, "d": d, "at": rng.choice([None, rng.randrange(12)]), "key": rng.choice(keys)}
+            if e == "inclterm":
+                spec = [t for t in terms if t["key"] == a["key"]][0]
+                a["path"] = rng.choice(spec_paths(spec["secs"]) + [None, "/nope"])
+            acts.append(a)
         else:
             e = rng.choice(["setrepo", "setrepo", "setrepo", "settype", "settype", "renameprop", "addprop",
                             "addsec", "move", "move", "clone", "clone", "roundtrip", "newdoc", "removesec"])
@@ -876,6 +1134,30 @@ def gen_terms_case(rng):
                      "rules": json.loads(json.dumps(both)), "report": False})
         nvals += 1
     return {"token": rng.randrange(10 ** 9), "terms": terms, "docs": docs, "acts": acts}
+
+
+def gen_loader_case(rng):
+    """(round 5, correspondence with Model/TermLoad.lean) 2-4 terminology files, each ending at some
+    stage of loading, and a sequence of entries into the loader: terminology.load, deferred_load (what
+    the repository / include setters start), and the two on-demand rules run by a reset Validation on a
+    Section / Property that received the repository as a constructor argument."""
+    n = rng.choice([2, 3, 3, 4])
+    files = []
+    for i in range(n):
+        t = gen_term_load(rng, "u%d" % i, [], T_TYPES[:6], T_PNAMES, dangling=0.35)
+        if t["kind"] == "mem":
+            t["kind"] = "file"
+        t.pop("url", None)
+        files.append(t)
+    ops = []
+    for _ in range(rng.randrange(3, 12)):
+        ops.append({"t": rng.choice(["load", "load", "deferred", "rule", "rule", "prule"]), "u": rng.randrange(n),
+                    "type": rng.choice(T_TYPES[:6]), "pname": rng.choice(T_PNAMES)})
+    for i in range(n):
+        typ = rng.choice(T_TYPES[:6])
+        ops += [{"t": "rule", "u": i, "type": typ, "pname": "a"}, {"t": "load", "u": i, "type": typ, "pname": "a"},
+                {"t": "rule", "u": i, "type": typ, "pname": "a"}]
+    return {"stream": "loader", "token": rng.randrange(10 ** 9), "files": files, "ops": ops}
 
 
 class Lib(object):
@@ -1333,6 +1615,29 @@ class Lib(object):
                     val.register_custom_handler(k, getattr(validation, name))
         val.run_validation()
 
+    def m_refusedValidation(self, a, arg):
+        # round 5: a Validation that cannot even be created (not an odML object) or whose registration
+        # is refused must leave the registry alone like every other refused call
+        from odml import validation
+        k = arg % 6
+        if k < 4:
+            validation.Validation([42, None, "text", [self.doc]][k])
+        elif k == 4:
+            validation.Validation(self.doc, validate=False, reset=True).register_custom_handler("section", None)(None)
+        else:
+            validation.Validation(self.doc, validate=False, reset=True).validate(42)
+
+    def m_loaderDoor(self, a, arg):
+        # round 5: the terminology loader entered from elsewhere between two validations; for a file that
+        # cannot be loaded the call fails - what it leaves behind is what the next validation finds
+        import odml.terminology
+        if arg % 3 == 0:
+            odml.terminology.load(self.repo_choice(arg // 3) or REPO_EDITS[3])
+        elif arg % 3 == 1:
+            self.section(arg // 3).get_terminology_equivalent()
+        else:
+            self.doc.get_terminology_equivalent()
+
     def m_validateMethod(self, a, arg):
         # the library-side spellings of "validate this": neither may touch the registry
         if arg % 2:
@@ -1364,15 +1669,20 @@ def index_tree(root, prefix, refs):
 
 def build_user_doc(spec, url):
     import odml
-    doc = odml.Document()
-    if spec.get("repo") is not None:
-        doc.repository = url(spec["repo"])
+    if spec.get("repo") is not None and spec.get("via") == "ctor":
+        doc = odml.Document(repository=url(spec["repo"]))
+    else:
+        doc = odml.Document()
+        if spec.get("repo") is not None:
+            doc.repository = url(spec["repo"])
 
     def mk(ss, parent):
         kw = {}
-        if ss.get("repo") is not None:
+        if ss.get("repo") is not None and spec.get("sec_via") != "setter":
             kw["repository"] = url(ss["repo"])
         sec = odml.Section(name=ss["name"], type=ss["type"], parent=parent, **kw)
+        if ss.get("repo") is not None and spec.get("sec_via") == "setter":
+            sec.repository = url(ss["repo"])
         for ps in ss.get("props", []):
             kw = {}
             if ps.get("dtype"):
@@ -1406,8 +1716,8 @@ def exec_terms(case, tmp, saved, validate=True, reverse=False):
     docs = [build_user_doc(d, url) for d in case["docs"]]
     start = registry_names()
     term_docs = []
+    import odml.terminology as ot
     try:
-        import odml.terminology as ot
         term_docs = [ot.terminologies[u] for u in sorted(urls.values()) if ot.terminologies.get(u) is not None]
     except Exception:
         pass
@@ -1445,8 +1755,18 @@ def exec_terms(case, tmp, saved, validate=True, reverse=False):
             index_tree(root, "x", refs)      # an object that has been taken out of its document
         return refs
 
-    def world(root):
-        return [deep_snapshot(d) for d in docs] + [deep_snapshot(root)] + [deep_snapshot(t) for t in term_docs]
+    def loaded_terms():
+        # (round 5) also the terminologies the library has loaded itself by now
+        try:
+            return term_docs + [ot.terminologies[u] for u in sorted(urls.values())
+                                if ot.terminologies.get(u) is not None
+                                and not any(ot.terminologies[u] is t for t in term_docs)]
+        except Exception:
+            return term_docs
+
+    def world(root, terms=None):
+        return [deep_snapshot(d) for d in docs] + [deep_snapshot(root)] \
+            + [deep_snapshot(t) for t in (term_docs if terms is None else terms)]
 
     def table(rules):
         return dict((k, [handler_func(h) for h in hs]) for k, hs in rules.items())
@@ -1455,7 +1775,8 @@ def exec_terms(case, tmp, saved, validate=True, reverse=False):
         return dict((k, list(set(saved.get(k, ())) | set(extra_global[k]))) for k in KLASSES)
 
     def observe(fn, get_val, root, tab, report):
-        before = world(root)
+        held = loaded_terms()
+        before = world(root, held)
         refs = refs_for(root)
         obs = {}
         texts = []
@@ -1466,7 +1787,7 @@ def exec_terms(case, tmp, saved, validate=True, reverse=False):
             obs["issues"] = c08.issue_list(get_val().errors, refs)
         except Exception as exc:
             obs["run_raised"] = fw.exc_name(exc)
-        after = world(root)
+        after = world(root, held)
         try:
             val = get_val()
             if report:
@@ -1476,7 +1797,7 @@ def exec_terms(case, tmp, saved, validate=True, reverse=False):
             obs["again"] = c08.issue_list(val.errors, refs)
         except Exception as exc:
             obs["again_raised"] = fw.exc_name(exc)
-        obs["unchanged"] = before == after and after == world(root)
+        obs["unchanged"] = before == after and after == world(root, held)
         if len(texts) == 2:
             obs["report_same"] = texts[0] == texts[1]
         try:
@@ -1524,11 +1845,33 @@ def exec_terms(case, tmp, saved, validate=True, reverse=False):
                 f = handler_func(a["h"])
                 Validation.register_handler(a["k"], f)
                 extra_global[a["k"]].append(f)
+            elif t == "valterm":
+                # (round 5) a terminology the library holds is a Document like any other: a default
+                # validation of it must not change it either
+                term = ot.terminologies.get(url(a["key"]))
+                if validate and term is not None:
+                    box = {}
+
+                    def fn(term=term, box=box):
+                        box["val"] = Validation(term)
+                    obs = observe(fn, lambda box=box: box["val"], term, default_table(), False)
             else:
                 # edits: a refusal is not this property's business, the state it leaves behind is
                 try:
                     d = a["d"] % len(docs)
-                    if t == "setrepo":
+                    if t == "loadterm":
+                        # (round 5) the other doors into the terminology loader, used between two
+                        # validations: whatever they leave behind when the file cannot be loaded
+                        ot.load(url(a["key"]))
+                    elif t == "termeq":
+                        obj = docs[d] if a["at"] is None else section(d, a["at"])
+                        obj.get_terminology_equivalent()
+                    elif t == "finalize":
+                        docs[d].finalize()
+                    elif t == "inclterm":
+                        odml.Section(name=fresh(), type="t", parent=docs[d],
+                                     include=url(a["key"]) + ("#" + a["path"] if a.get("path") else ""))
+                    elif t == "setrepo":
                         obj = docs[d] if a["at"] is None else section(d, a["at"])
                         obj.repository = url(a["to"])
                     elif t == "settype":
@@ -1586,7 +1929,17 @@ def exec_terms(case, tmp, saved, validate=True, reverse=False):
             val.run_validation()
             return c08.issue_list(val.errors, refs)
         except Exception as exc:
-            return ["raised " + fw.exc_name(exc)]
+            # (round 5) a terminology that cannot be loaded makes the Property rule fail: what the
+            # Section rule and the default rules report is still looked at
+            val = Validation(d, validate=False, reset=True)
+            for k in KLASSES:
+                for h in [x for x in FINAL_RULES.get(k, []) if k != "property"] + [{"r": n} for n in RULES_FOR[k]]:
+                    val.register_custom_handler(k, handler_func(h))
+            try:
+                val.run_validation()
+                return ["raised " + fw.exc_name(exc)] + c08.issue_list(val.errors, refs)
+            except Exception as exc2:
+                return ["raised " + fw.exc_name(exc), "raised " + fw.exc_name(exc2)]
 
     def expected_final(d):
         refs = index_tree(d, "d", {})
@@ -1595,7 +1948,11 @@ def exec_terms(case, tmp, saved, validate=True, reverse=False):
         try:
             return expected_issues(tab, d, refs)
         except Exception as exc:
-            return ["raised " + fw.exc_name(exc)]
+            tab["property"] = [handler_func({"r": n}) for n in RULES_FOR["property"]]
+            try:
+                return ["raised " + fw.exc_name(exc)] + expected_issues(tab, d, refs)
+            except Exception as exc2:
+                return ["raised " + fw.exc_name(exc), "raised " + fw.exc_name(exc2)]
     order = list(range(len(docs)))
     if reverse:
         order.reverse()
@@ -1636,10 +1993,14 @@ class C19(fw.Check):
         "run_changes_nothing", "validate_repeatable", "registry_isolated",
         "ctor_and_setter_validations_private", "reset_starts_empty", "default_uses_global",
         "default_report_stable", "custom_rule_private", "custom_rule_not_in_default",
-        "fresh_custom_is_private", "custom_on_default_object_leaks", "register_global_changes"]]
+        "fresh_custom_is_private", "custom_on_default_object_leaks", "register_global_changes",
+        # round 5: the table of loaded terminologies the on-demand rules read (Model/TermLoad.lean)
+        "failed_load_leaves_no_trace", "terminology_load_repeatable", "terminology_load_history_independent",
+        "terminology_rules_repeatable", "inconsistent_table_changes_outcome"]]
     trusted_base = [
         "Lean 4.33.0 kernel; axioms propext, Classical.choice, Quot.sound only (audited per theorem)",
-        "hand-written models lean/OdmlModel/Model/Registry.lean, Model/Valid.lean, tied to /repo by this run",
+        "hand-written models lean/OdmlModel/Model/Registry.lean, Model/Valid.lean, Model/TermLoad.lean, tied to "
+        "/repo by this run",
         "harness/extract_tables.py (Validation._handlers regenerated into Lean: the initial registry)",
         "Driver/*.lean JSON glue; harness/framework.py, harness/c19.py, harness/c08.py (builders)",
     ]
@@ -1673,6 +2034,10 @@ class C19(fw.Check):
             "after the other with the on-demand terminology rules, repository / type / name edits, moves and "
             "clones between documents and round trips in between; the final issues also compared with a fresh "
             "process that has validated nothing before and takes the documents in the opposite order. "
+            "Round 5: terminology files that end at every stage of loading (unreachable, undecodable, "
+            "unparsable, dangling links, links and includes that resolve), repositories as constructor "
+            "arguments, the loader entered through its other doors between validations; loader stream in "
+            "correspondence with Model/TermLoad.lean. "
             "Non-trivial = a history with at least one registration on a reset validation or a library "
             "macro, or a permutation/xproc case with at least one issue.")
 
@@ -1714,6 +2079,19 @@ class C19(fw.Check):
             cases.append({"stream": "xproc", "hashseed": rng.randrange(1, 4000), "roundtrip": True,
                           "order": "reversed",
                           "docs": [gen_wide_doc(rng, zz=rng.random() < 0.8) for _ in range(25 if quick else 150)]})
+        # ---- added after seeded round 5 (again drawn after everything above): terminology FILES that
+        # fail at every stage of loading or hold links / includes the loader has to resolve, repositories
+        # handed over as constructor arguments, the loader entered through its other doors in between
+        for _ in range(150 if quick else 7000):
+            cases.append(dict(gen_terms_case(rng, load=True), stream="terms"))
+        for _ in range(60 if quick else 2500):
+            cases.append({"stream": "wide", "doc": add_terms(rng, gen_wide_doc(rng), load=True),
+                          "acts": gen_wide_history(rng, LIB_WIDE5, 0.55)})
+        for b in range(1 if quick else 6):
+            cases.append({"stream": "termsx", "hashseed": rng.randrange(1, 4000), "locale": b % 2 == 1,
+                          "items": [gen_terms_case(rng, load=True) for _ in range(30 if quick else 150)]})
+        for _ in range(100 if quick else 4000):
+            cases.append(gen_loader_case(rng))
         return cases
 
     # -- implementation ------------------------------------------------------
@@ -1730,6 +2108,8 @@ class C19(fw.Check):
                 return self.run_perm(case)
             if st == "terms":
                 return exec_terms(case, tmp, saved)
+            if st == "loader":
+                return self.run_loader(case, tmp)
             if st == "termsx":
                 return self.run_termsx(case)
             return self.run_xproc(case)
@@ -1957,6 +2337,77 @@ class C19(fw.Check):
             steps.append(obs)
         return {"pristine": pristine, "start": start, "steps": steps}
 
+    def run_loader(self, case, tmp):
+        import threading
+        import odml
+        import odml.terminology as ot
+        from odml import validation
+        pristine = registry_names()
+        urls = register_terms(case["files"], case["token"], tmp)
+        order = [urls[t["key"]] for t in case["files"]]
+        states = []
+        for t, url in zip(case["files"], order):
+            copy = _TERMS.get(url)
+            if t["kind"] == "missing" or t.get("broken") in ("binary", "latin1"):
+                states.append("unreachable")        # nothing can be fetched / decoded
+            elif t.get("broken"):
+                states.append("unparsable")
+            elif copy is UNLOADABLE:
+                states.append("unfinalizable")
+            elif copy is None or copy is UNKNOWN:
+                states.append(None)
+            else:
+                states.append("good")
+
+        def table():
+            out = []
+            for i, u in enumerate(order):
+                try:
+                    out.append([i, ot.terminologies[u] is not None])
+                except KeyError:
+                    pass
+            return out
+
+        def count(root, klass, rule):
+            val = validation.Validation(root, validate=False, reset=True)
+            val.register_custom_handler(klass, rule)
+            try:
+                val.run_validation()
+            except Exception:
+                return "raised"
+            return len(val.errors)
+        steps = []
+        for op in case["ops"]:
+            url = order[op["u"] % len(order)]
+            obs = {}
+            try:
+                if op["t"] == "load":
+                    try:
+                        obs["outcome"] = "none" if ot.load(url) is None else "doc"
+                    except Exception:
+                        obs["outcome"] = "raised"
+                elif op["t"] == "deferred":
+                    before = set(threading.enumerate())
+                    ot.deferred_load(url)
+                    for thread in threading.enumerate():
+                        if thread not in before and thread is not threading.current_thread():
+                            thread.join(120)
+                else:
+                    sec = odml.Section(name="s", type=op["type"], repository=url)
+                    state, tsec = term_lookup(sec)
+                    obs["hasType"] = state == "found"
+                    obs["hasName"] = state == "found" and any(p.name == op["pname"] for p in tsec.properties)
+                    if op["t"] == "rule":
+                        obs["warnings"] = count(sec, "section", validation.section_repository_present)
+                    else:
+                        prop = odml.Property(name=op["pname"], parent=sec)
+                        obs["warnings"] = count(prop, "property", validation.property_terminology_check)
+            except Exception as exc:
+                obs["raised"] = fw.exc_name(exc)
+            obs["table"] = table()
+            steps.append(obs)
+        return {"pristine": pristine, "end": registry_names(), "states": states, "steps": steps}
+
     @staticmethod
     def lib(a, doc, tmp, fresh, target_section, target_property):
         """The macros of the first round (kept for callers of the old signature)."""
@@ -2086,6 +2537,14 @@ class C19(fw.Check):
                 return []
             acts, _last = self.model_acts(case, obs)
             return [{"p": "C19", "op": "history", "acts": acts}]
+        if st == "loader":
+            if any(x is None for x in obs["states"]) or any("raised" in x for x in obs["steps"]):
+                return []       # a file the harness cannot classify: left to the oracle
+            n = len(obs["states"])
+            return [{"p": "C19", "op": "loader", "files": obs["states"],
+                     "ops": [{"t": op["t"], "u": op["u"] % n, "hasType": bool(step.get("hasType")),
+                              "hasName": bool(step.get("hasName"))}
+                             for op, step in zip(case["ops"], obs["steps"])]}]
         if st == "perm":
             if obs.get("node") is None or "skipped" in obs:
                 return []
@@ -2118,6 +2577,21 @@ class C19(fw.Check):
                         out.append("step %d (%s of object %s): model issues %s..., implementation %s..."
                                    % (i, a["t"], a.get("u"), mine[:5], step["issues"][:5]))
                         break
+        if st == "loader" and answers:
+            for i, (op, step, m) in enumerate(zip(case["ops"], obs["steps"], answers[0])):
+                for key in ("outcome", "warnings", "table"):
+                    mine, theirs = m.get(key), step.get(key)
+                    if key == "table":
+                        # only the Documents the table holds are compared: whether a failure is remembered
+                        # as None or found again by the next load makes no difference to any validation
+                        mine = [e for e in mine or [] if e[1]]
+                        theirs = [e for e in theirs or [] if e[1]]
+                    if key in m and mine != theirs:
+                        out.append("step %d (%s of file %d, %s): %s is %s in the model, %s in the implementation"
+                                   % (i, op["t"], op["u"], obs["states"][op["u"] % len(obs["states"])], key,
+                                      m[key], step.get(key)))
+                if out:
+                    break
         if st == "perm" and answers:
             for k, ans in enumerate(answers):
                 mine = sorted(ans, key=lambda x: (x[0], x[1], x[2]))
@@ -2225,6 +2699,26 @@ class C19(fw.Check):
                                           "loaded", step["loaded"])
         elif st == "terms":
             self.judge_terms(out, case, obs, "")
+        elif st == "loader":
+            # the property restated without the model: whatever entered the loader in between, the same
+            # file loads the same way and the same rule reports the same number of issues on an equal
+            # object; nothing of it touches the rule registry
+            if obs["end"] != obs["pristine"]:
+                out.append("the default registry was changed: %s -> %s" % (obs["pristine"], obs["end"]))
+            seen = {}
+            for i, (op, step) in enumerate(zip(case["ops"], obs["steps"])):
+                if "raised" in step:
+                    out.append("step %d (%s) raised %s" % (i, op["t"], step["raised"]))
+                    break
+                if op["t"] == "deferred":
+                    continue
+                key = (op["t"], op["u"]) if op["t"] == "load" else (op["t"], op["u"], op["type"], op["pname"])
+                got = step.get("outcome", step.get("warnings"))
+                if key in seen and seen[key][1] != got:
+                    out.append("step %d: %s on file %d yields %s, the same at step %d yielded %s"
+                               % (i, op["t"], op["u"], got, seen[key][0], seen[key][1]))
+                    break
+                seen.setdefault(key, (i, got))
         elif st == "termsx":
             for n, (item, got) in enumerate(zip(case["items"], obs["here"])):
                 self.judge_terms(out, item, got, "history %d, " % n)
@@ -2277,6 +2771,9 @@ class C19(fw.Check):
             return ("perm", bool(obs.get("default")))
         if st == "terms":
             return ("terms", any(s.get("issues") for s in obs.get("steps", [])))
+        if st == "loader":
+            return ("loader" if None not in obs.get("states", [None]) else "loader+oracle-only",
+                    any(x != "good" for x in obs.get("states", [])))
         if st == "termsx":
             return ("termsx", any(any(h.get("final", [])) for h in obs.get("here", [])))
         return ("xproc", any(obs.get("here", [])))
